@@ -47,6 +47,9 @@ def make_tree(rng, typed, name, nmax=12, nmin=0, subclass=False):
                 return hash(data)
 
         Tree, TypedTree = SubTree, SubTypedTree
+        if rng.random() < 0.5:
+            X = gen.ext_classes()  # node class of its own (always falsy, own `name`), DEFAULT_CHILD_TYPE = "kid"
+            Tree, TypedTree = X["XTree"], X["XTypedTree"]
     n = rng.randint(nmin, nmax)
     f = gen.random_forest(rng, n)
     par = gen.parents(f)
@@ -55,6 +58,11 @@ def make_tree(rng, typed, name, nmax=12, nmin=0, subclass=False):
     datas = {}
     labs, ids = [], []
     mode = rng.choice(["clones", "clones", "ids", "uniq"])
+    # how a label becomes a data object: the string itself / a fresh tuple (equal to, but not the same object as, the tuple
+    # another tree holds for that label) / an object on a tree that forwards attribute access to it
+    wrap = rng.choice(["str", "str", "tuple", "fwd"]) if not typed else rng.choice(["str", "str", "tuple"])
+    if wrap == "fwd" and not subclass:
+        t = Tree(name, forward_attrs=True, calc_data_id=lambda tree, d: hash(d.key) if isinstance(d, _Fwd) else hash(d))
     for i in range(n):
         used = {ids[j] for j in range(i) if par[j] == par[i]}
         for _ in range(60):
@@ -76,7 +84,12 @@ def make_tree(rng, typed, name, nmax=12, nmin=0, subclass=False):
     def label(i):
         key = (labs[i], ids[i])
         if key not in objs:
-            objs[key] = "".join(labs[i])  # may be interned; identity of data objects is still compared
+            if wrap == "tuple":
+                objs[key] = tuple([labs[i]])
+            elif wrap == "fwd" and not subclass:
+                objs[key] = _Fwd(labs[i])
+            else:
+                objs[key] = "".join(labs[i])  # may be interned; identity of data objects is still compared
         return objs[key]
 
     kinds = [rng.choice(["ka", "kb", "child"]) for _ in range(n)]
@@ -93,9 +106,34 @@ def make_tree(rng, typed, name, nmax=12, nmin=0, subclass=False):
     return t, nodes
 
 
+def _kind_of(node):
+    """The kind of a typed node (None for plain nodes - also when attribute access is forwarded to data that has a `kind`)."""
+    from nutree.typed_tree import TypedNode
+
+    return node.kind if isinstance(node, TypedNode) else None
+
+
+class _Fwd:
+    """Data for trees with forward_attrs=True: attributes that resemble node attributes (`kind`, `name`)."""
+
+    def __init__(self, key):
+        self.key = key
+        self.kind = "data-kind"
+        self.name = f"name-of-{key}"
+
+    def __hash__(self):
+        return hash(self.key)
+
+    def __eq__(self, other):
+        return isinstance(other, _Fwd) and other.key == self.key
+
+    def __repr__(self):
+        return f"F({self.key})"
+
+
 def ident(t):
     def rec(h):
-        return [(id(c), id(c.data), c.data_id, getattr(c, "kind", None), dict(c.meta) if c.meta else None, rec(c)) for c in h.children]
+        return [(id(c), id(c.data), c.data_id, _kind_of(c), dict(c.meta) if c.meta else None, rec(c)) for c in h.children]
 
     return (t.count, rec(t))
 
@@ -103,7 +141,7 @@ def ident(t):
 def shape(nodes_or_holder, top_only=None):
     """(id(data), data_id, kind, children) - data compared by identity."""
     def one(c):
-        return (id(c.data), c.data_id, getattr(c, "kind", None), [one(k) for k in c.children])
+        return (id(c.data), c.data_id, _kind_of(c), [one(k) for k in c.children])
 
     return [one(c) for c in nodes_or_holder]
 
@@ -121,7 +159,7 @@ def mutate_script(rng, nodes, same_tree):
             if nd._tree is None:
                 continue
             if r < 0.25:
-                nd.add(f"extra-{rng.randrange(10**6)}", **({"kind": "kx"} if hasattr(nd, "kind") else {}))
+                nd.add(f"extra-{rng.randrange(10**6)}", **({"kind": "kx"} if _kind_of(nd) is not None else {}))
             elif r < 0.4 and nd.children:
                 nd.children[0].remove()
             elif r < 0.55 and len(nd.children) > 1:
@@ -268,7 +306,7 @@ def run_case(case, res):
                 copied_sources = [src]
                 if not deep:
                     copied_sources = None
-                    exp = [(id(src.data), src.data_id, getattr(src, "kind", None), [])]
+                    exp = [(id(src.data), src.data_id, _kind_of(src), [])]
                 kind_less_top = True
                 copy_side_tree = new.tree
             elif route == "add_node_into_own_branch":
@@ -359,7 +397,7 @@ def run_case(case, res):
                     copied_sources = sources
                 else:
                     copied_sources = None
-                    exp = [(id(s.data), s.data_id, getattr(s, "kind", None), []) for s in sources]
+                    exp = [(id(s.data), s.data_id, _kind_of(s), []) for s in sources]
                 kind_less_top = True
                 copy_side_tree = target.tree if hasattr(target, "tree") else target
                 branch = [b for s in sources for b in [s] + list(s)]
@@ -382,7 +420,8 @@ def run_case(case, res):
             if not fresh:
                 bad.append("the copy contains node objects of the source")
             if got != exp:
-                if typed and kind_less_top and got == default_top_kinds(exp) :
+                dk = getattr(got_nodes[0].tree, "DEFAULT_CHILD_TYPE", "child") if got_nodes else "child"
+                if typed and kind_less_top and got == default_top_kinds(exp, dk):
                     known = True
                     res.known_finding(KNOWN_KIND, case)
                 else:
@@ -401,7 +440,7 @@ def run_case(case, res):
                     # interference inside one tree: the copy is a clone of its source; structural edits and
                     # set_data(..., with_clones=False) on one side must not show on the other side
                     def branch_snap(tops):
-                        return [(id(c), id(c.data), c.data_id, getattr(c, "kind", None), dict(c.meta) if c.meta else None, branch_snap(c.children)) for c in tops]
+                        return [(id(c), id(c.data), c.data_id, _kind_of(c), dict(c.meta) if c.meta else None, branch_snap(c.children)) for c in tops]
 
                     src_tops = copied_sources if copied_sources else [src]
                     s_before = branch_snap(src_tops)
@@ -480,7 +519,7 @@ def run_case(case, res):
 
 def describe(nodes):
     def one(c):
-        return (c.data, c.data_id, getattr(c, "kind", None), [one(k) for k in c.children])
+        return (c.data, c.data_id, _kind_of(c), [one(k) for k in c.children])
 
     return [one(c) for c in nodes] if nodes else None
 
